@@ -468,6 +468,11 @@ func execC17History(p *drv.Plan) *Out {
 					cls = "prune"
 				}
 				vv := mk(s, "C17.reopen-old-or-new", "bad-state-after-reopen", site, fmt.Sprintf("neither the state before (%s) nor after (%s)", firstLine(vOld.Detail), firstLine(vNew.Detail)))
+				if s.Op == drv.OpLVFO || s.Op == drv.OpDVF {
+					if t := intermediateRollback(w2, "C17", "C17.reopen-old-or-new", s.Op, preM, preT, nT.Latest); t != 0 {
+						vv = mk(s, "C17.reopen-old-or-new", "intermediate-version", site, fmt.Sprintf("the failed rollback from version %d to version %d left the store at version %d: every remaining version is intact, but it is neither the state before nor the state after", preT.Latest, nT.Latest, t))
+					}
+				}
 				vv.Class = cls + "/" + flushState + "/" + fired[0].Fault.Kind
 				out.Violations = append(out.Violations, vv)
 				w = w2
@@ -834,7 +839,30 @@ func oneFault(p *drv.Plan, w *drv.World, base *sim.SimDB, baseDigest uint64, for
 	if vNew == nil {
 		return nil
 	}
+	if s.Op == "p.lvfo" {
+		if t := intermediateRollback(w3, "C17", "C17.reopen-old-or-new", api, oldM, oldT, newT.Latest); t != 0 {
+			return mkR("intermediate-version", fmt.Sprintf("the failed rollback from version %d to version %d left the store at version %d: every remaining version is intact, but it is neither the state before nor the state after", oldT.Latest, newT.Latest, t))
+		}
+	}
 	return mkR("bad-state-after-reopen", fmt.Sprintf("after the failed operation the store reopens to neither the state before (%s) nor after (%s)", firstLine(vOld.Detail), firstLine(vNew.Detail)))
+}
+
+// intermediateRollback reports the version at which an interrupted rollback
+// from the state (oldM, oldT) down to newLatest stopped, if the reopened store w
+// is exactly the state "rolled back to that version" (0 otherwise).
+func intermediateRollback(w *drv.World, prop, oracle, cls string, oldM *ref.VMap, oldT *ref.Tree, newLatest int64) int64 {
+	for t := oldT.Latest - 1; t > newLatest; t-- {
+		if !oldM.Has(t) {
+			continue
+		}
+		w.M, w.T = oldM.Clone(), oldT.Clone()
+		w.M.RollbackTo(t)
+		w.T.RollbackTo(t)
+		if v := w.Guard(prop, oracle, cls, func() *drv.Violation { return auditCrashState(w) }); v == nil {
+			return t
+		}
+	}
+	return 0
 }
 
 // importUnderFaults exports a version from the base disk (fault-free) and
